@@ -183,7 +183,7 @@ type Query struct {
 
 // solve races the portfolio. expectSat: cover queries (a sat answer is the "good" one; no need for all solvers).
 func solve(q Query, timeout time.Duration) SolverRes {
-	math, bits, _, quant := featureScan(append(append([]*Term{}, q.Facts...), q.Goal))
+	math, bits, hasFP, quant := featureScan(append(append([]*Term{}, q.Facts...), q.Goal))
 	type job struct {
 		sp     solverSpec
 		mode   Mode
@@ -199,6 +199,9 @@ func solve(q Query, timeout time.Duration) SolverRes {
 		modes = []Mode{ModeInt}
 	default:
 		modes = []Mode{ModeInt, ModeBV}
+	}
+	if hasFP && !quant {
+		modes = append(modes, ModeReal)
 	}
 	scripts := map[string]string{}
 	var firstErr error
@@ -223,7 +226,7 @@ func solve(q Query, timeout time.Duration) SolverRes {
 				if !ok {
 					continue
 				}
-				first := (mi == 0 && si == 0) || (mi == 1 && si == 1) || (len(modes) == 1 && si == 1)
+				first := (mi == 0 && si == 0) || (mi == 1 && si == 1) || (len(modes) == 1 && si == 1) || (m == ModeReal && si == 0)
 				if stage == 1 && !first {
 					continue
 				}
@@ -249,6 +252,10 @@ func solve(q Query, timeout time.Duration) SolverRes {
 		var decided *SolverRes
 		for r := range ch {
 			attempts = append(attempts, fmt.Sprintf("%s/%s:%s:%.2fs", r.Solver, r.Mode, r.Status, r.Time))
+			if r.Status == "sat" && r.Mode == "real" {
+				// the relaxed float model over-approximates: its models are not counterexamples
+				r.Status = "unknown"
+			}
 			if decided == nil && (r.Status == "unsat" || r.Status == "sat") {
 				rr := r
 				decided = &rr
